@@ -52,6 +52,10 @@ import html5lib.filters.optionaltags  # noqa: E402,F401
 import html5lib.filters.sanitizer  # noqa: E402,F401
 import html5lib.filters.whitespace  # noqa: E402,F401
 import html5lib.filters.lint  # noqa: E402,F401
+import html5lib.filters.base  # noqa: E402,F401
+import html5lib.treeadapters  # noqa: E402,F401
+import html5lib.treeadapters.sax  # noqa: E402,F401
+import html5lib._ihatexml  # noqa: E402,F401
 import xml.dom.minidom  # noqa: E402,F401
 import xml.etree.ElementTree  # noqa: E402,F401
 import encodings  # noqa: E402,F401
